@@ -21,6 +21,7 @@ EXPLANATION = (
 BOUNDS = {"quick": "advance: all m >= 0; ensemble k<=2, 3 walkers, 2 calls; run_for: <=3 loop iterations, step rates <= 3 per second "
                    "(slow steps) plus the zero-elapsed-time corner; pool of 2 chains",
           "thorough": "ensemble k<=3; run_for <=4 loop iterations"}
+TECHNIQUE = "AST-to-SMT integer encoding of MarkovChain.advance with loop summarisation (z3, all m >= 0) validated against the real method; symbolic execution of ensemble advance / run_for with a symbolic clock (z3 per-path queries); counterexamples replayed"
 ASSUMPTIONS = [
     "loop summarisation lemma of pyint (a loop adding a loop-invariant amount c per iteration adds c*max(N,0))",
     "time.time() returns non-decreasing instants; progress printing is disabled",
